@@ -75,10 +75,76 @@ Section Annot.
     do n1 <- set_annotation legacy_index_key (dec index) n;
     set_annotation index_key (dec index) n1.
 
+  (* several annotations, in the given (sorted-key) order — the SetAnnotations loop of ByteReader.decode *)
+  Fixpoint set_all (kvs : list (string * string)) (n : node) : res node :=
+    match kvs with
+    | [] => Ok n
+    | (k, v) :: t => do n1 <- set_annotation k v n; set_all t n1
+    end.
+
+  (* several ClearAnnotation calls — ByteWriter.Write (reader keys, then w.ClearAnnotations) *)
+  Fixpoint clear_all (ks : list string) (n : node) : res node :=
+    match ks with
+    | [] => Ok n
+    | k :: t => do n1 <- clear_annotation k n; clear_all t n1
+    end.
+
+  (* LocalPackageReader: ByteReader.decode with SetAnnotations = {path, legacy path} — the four keys in
+     sorted order *)
+  Definition pkg_read_set (index : N) (path : string) (n : node) : res node :=
+    set_all [(legacy_index_key, dec index); (legacy_path_key, path);
+             (index_key, dec index); (path_key, path)] n.
+
+  (* LocalPackageWriter -> ByteWriter with ClearAnnotations = [path, legacy path] *)
+  Definition pkg_write_clear (n : node) : res node :=
+    do n1 <- clear_all [index_key; legacy_index_key; seqindent_key; path_key; legacy_path_key] n;
+    clear_empty_annotations n1.
+
   (* ByteWriter.Write with default options, per node, before encoding *)
   Definition write_clear (n : node) : res node :=
     do n1 <- clear_annotation index_key n;
     do n2 <- clear_annotation legacy_index_key n1;
     do n3 <- clear_annotation seqindent_key n2;
     clear_empty_annotations n3.
+  (* reader then writer, at node level *)
+  Definition rt_node (index : N) (n : node) : res node :=
+    do n1 <- read_set index n; write_clear n1.
+  Definition pkg_rt_node (index : N) (path : string) (n : node) : res node :=
+    do n1 <- pkg_read_set index path n; pkg_write_clear n1.
 End Annot.
+
+(* ---- vocabulary of the theorems ---- *)
+
+(* at most one field of that name *)
+Definition single_key (name : string) (kvs : list (string * node)) : Prop :=
+  find_field name (remove_first name kvs) = None.
+
+Fixpoint keys_absent (ks : list string) (akvs : list (string * node)) : Prop :=
+  match ks with
+  | [] => True
+  | k :: t => find_field k akvs = None /\ keys_absent t akvs
+  end.
+
+(* A resource as the reader/writer bookkeeping expects it: a mapping; `metadata`, if present, a mapping
+   and unique; `annotations`, if present, a mapping, unique, and free of the keys [ks]. *)
+Definition res_wf (ks : list string) (n : node) : Prop :=
+  match n with
+  | Map kvs =>
+      match find_field "metadata" kvs with
+      | None => True
+      | Some (Map mk) =>
+          single_key "metadata" kvs /\
+          match find_field "annotations" mk with
+          | None => True
+          | Some (Map ak) => single_key "annotations" mk /\ keys_absent ks ak
+          | Some _ => False
+          end
+      | Some _ => False
+      end
+  | _ => False
+  end.
+
+Definition reader_keys : list string := [index_key; legacy_index_key; seqindent_key].
+Definition pkg_reader_keys : list string :=
+  [index_key; legacy_index_key; seqindent_key; path_key; legacy_path_key].
+
